@@ -103,7 +103,8 @@ fn gen_doc<D: Decl>(rng: &mut Rng, shape: ShapeId, core: bool, fmt: Format, stre
         }
         return ("stream", out);
     }
-    let hand_ok = matches!(shape, ShapeId::Bare | ShapeId::VecOf | ShapeId::RecOf | ShapeId::OptionOf);
+    let hand_ok = matches!(shape, ShapeId::Bare | ShapeId::VecOf | ShapeId::RecOf | ShapeId::OptionOf)
+        || (fmt.base() == Format::Json && matches!(shape, ShapeId::MapKey | ShapeId::MapVal));
     let kind = rng.weighted(&[25, 45, if hand_ok { 15 } else { 0 }, 15]);
     match kind {
         0 => {
@@ -1126,6 +1127,19 @@ fn main() {
         // debug aid: execute one session of the seeded sweep on the main thread, plan printed first
         Some("session") => {
             let i: u64 = args.get(1).and_then(|s| s.parse().ok()).unwrap_or(0);
+            // optional: `session <first> <count> <probe>` scans a range and prints the sessions that hit a probe
+            if let (Some(n), Some(probe)) = (args.get(2).and_then(|s| s.parse::<u64>().ok()), args.get(3)) {
+                for j in i..i + n {
+                    let mut rng = Rng::for_run(cfg.seed, SC_SESSION, j);
+                    let idx = (j % n_decls() as u64) as usize;
+                    let session = with_decl(idx, BuildSession { rng: &mut rng });
+                    let out = with_decl(idx, ExecSession { s: &session });
+                    if out.probes.keys().any(|p| p.contains(probe.as_str())) {
+                        println!("{j} {}", serde_json::to_string(&session).unwrap());
+                    }
+                }
+                std::process::exit(0);
+            }
             let mut rng = Rng::for_run(cfg.seed, SC_SESSION, i);
             let idx = (i % n_decls() as u64) as usize;
             let session = with_decl(idx, BuildSession { rng: &mut rng });
